@@ -164,6 +164,10 @@ def jobs_for(tier):
     # a block without any Kronecker factor (0-d parameter without merging; every dimension ignored) never fails and never counts as a failure
     add(params=[(2,), ()], mpd=2, merge=False, pf=1, sps=1, T=3, rebase=True, mode="raise", fixed=fixed, maxN=1)
     add(params=[(2, 2), (2,)], mpd=2, merge=False, pf=1, sps=1, T=2, rebase=True, mode="raise", fixed=fixed, precond="soap_eigh", ignored_dims=[0, 1], maxN=1)
+    # a factor-less block AHEAD of blocks that can fail, with gradient presence changing between refreshes: counters stay with their own blocks
+    add(params=[(), (2,), (2,)], mpd=2, merge=False, pf=1, sps=1, T=3, rebase=True, presence="symbolic", mode="raise", fixed=fixed, maxN=1)
+    # a 1 x 1 factor is always diagonal: a non-finite gradient must still be caught in it
+    add(params=[(1,), (2,)], mpd=2, merge=False, pf=1, sps=1, T=2, rebase=True, presence="symbolic", mode="nangrad", fixed=fixed)
     for md in ("nan", "inf", "nangrad"):
         add(params=[(2, 2), (2,)], mpd=2, merge=False, pf=1, sps=1, T=2, rebase=True, presence="symbolic", mode=md, fixed=fixed)
         add(params=[(2, 2), (2,)], mpd=2, merge=False, pf=1, sps=1, T=2, rebase=True, mode=md, fixed=fixed, precond="soap_qr")
